@@ -87,7 +87,15 @@ const c05LongLen = 3000
 // c05RealName: counters whose short name starts with L have 3000-byte names,
 // H = 4096 bytes (the longest name the format allows; three such records fill
 // a page), X = 5000 bytes (too long: the library refuses to store it).
+var c05OddNames = map[string]string{
+	"N:empty": "", "N:one": "z", "N:nul": "a\x00b", "N:utf8": "\xff\xfe\x80", "N:multibyte": "z\u00e4hler/\u8ba1\u6570",
+	"N:nl": "st\nexample.com/p.f:+1,+0x1", "N:ditto": "st\n\".f:1,+0x2\n\".g:2,+0x3", "N:meta": "TimeEnd: 1999-01-01T00:00:00Z\n\n",
+}
+
 func c05RealName(short string) string {
+	if r, ok := c05OddNames[short]; ok {
+		return r
+	}
 	n := 0
 	switch {
 	case strings.HasPrefix(short, "L"):
@@ -209,7 +217,9 @@ func c05NewWorld(t *testing.T, setup, mode string) *c05World {
 	memmap, munmap = c05Memmap, c05Munmap
 	w.f.buildInfo = c05BuildInfo()
 	local := telemetry.Default.LocalDir()
-	if setup != "fresh" {
+	if setup == "bare" { // the directories exist, nothing else does
+		os.MkdirAll(local, 0777)
+	} else if setup != "fresh" {
 		os.MkdirAll(local, 0777)
 		os.WriteFile(filepath.Join(local, "weekends"), []byte("2\n"), 0666)
 		data, err := rt.WriteV1(c05Meta(c05T1), c05Entries(setup))
@@ -286,8 +296,7 @@ func (w *c05World) curIsToday() bool {
 func c05RunFaultCase(t *testing.T, scn *c05Scn, plan *c05h.Plan, budget int, record bool) {
 	w := c05NewWorld(t, scn.Setup, scn.Mode)
 	if scn.ModeClass != nil {
-		os.MkdirAll(w.dir, 0777)
-		if err := os.WriteFile(filepath.Join(w.dir, "mode"), scn.ModeClass.Bytes(), 0666); err != nil {
+		if err := scn.ModeClass.Install(w.dir); err != nil {
 			t.Fatal(err)
 		}
 	}
@@ -335,6 +344,10 @@ func c05RunFaultCase(t *testing.T, scn *c05Scn, plan *c05h.Plan, budget int, rec
 			ret, n, where, text = c05h.Run(st.Op, budget, func() { w.f.rotate1() })
 		case "week2":
 			w.now = c05T1.AddDate(0, 0, 7)
+		case "week1": // the clock goes back
+			w.now = c05T1
+		case "day2": // a later day of the first week
+			w.now = c05T1.AddDate(0, 0, 1).Add(3 * time.Hour)
 		case "add":
 			ret, n, where, text = c05h.Run("add", budget, func() { c.Add(st.N) })
 		case "read":
@@ -679,6 +692,10 @@ func c05Concretize(b *c05Base, c *c05CCase) []byte {
 		binary.LittleEndian.PutUint64(data[b.offC:], 0)
 		binary.LittleEndian.PutUint64(data[b.offE:], 0)
 	}
+	if c.Vals == "max" {
+		binary.LittleEndian.PutUint64(data[b.offC:], ^uint64(0))
+		binary.LittleEndian.PutUint64(data[b.offE:], ^uint64(0))
+	}
 	switch c.Hdr {
 	case "len0":
 		put32(data, 28, 0)
@@ -702,6 +719,8 @@ func c05Concretize(b *c05Base, c *c05CCase) []byte {
 		data = data[:rt.V1Page-1]
 	case "onepage":
 		data = data[:rt.V1Page]
+	case "pageplus":
+		data = data[:rt.V1Page+100]
 	}
 	return data
 }
@@ -971,6 +990,17 @@ func c05RunCorrupt(t *testing.T, b *c05Base, c *c05CCase, budget int, skipCycles
 	dP := int64(reach[short]) - int64(before[short])
 	dE := int64(counterStateBits(ctr.state.bits.Raw()).extra())
 	out["dP"], out["dE"] = dP, dE
+	// the counter's own readable value went down (unsigned; the largest of the records of that name, since
+	// damaged links can make a record reachable twice or shadow it by a new one)
+	maxOf := func(data []byte) (m uint64) {
+		for _, r := range rt.DecodeV1(data).Records {
+			if r.Name == name && r.Value > m {
+				m = r.Value
+			}
+		}
+		return m
+	}
+	out["dec"] = c.Op != "read" && maxOf(after) < maxOf(orig)
 	switch {
 	case c.Op == "read":
 		out["mode"] = "-"
